@@ -15,6 +15,9 @@ class NullFormatter(Formatter):
     def remove_format(self, string):  # type: (str) -> str
         return string
 
+    def disable_ansi(self):  # type: () -> bool
+        return False
+
     def force_ansi(self):  # type: () -> bool
         return False
 
